@@ -157,8 +157,8 @@ Section Rules.
   Proof.
     intros lz buf s b' ps id H. unfold add_one in H.
     repeat match type of H with
-           | context [if ?c then _ else _] => destruct c
-           | context [match ?c with _ => _ end] => destruct c
+           | context [if ?c then _ else _] => destruct c eqn:?
+           | context [match ?c with _ => _ end] => destruct c eqn:?
            end; inversion H; subst; split; reflexivity.
   Qed.
 
